@@ -189,6 +189,10 @@ func firstDiff(a, b *DNode, parent, path string) (string, string, bool) {
 		case lb == "ParenExpr" && la != "ParenExpr":
 			return "parens-added:" + parent + "." + field, path, false
 		}
+		if strings.HasPrefix(la, "\"") || strings.HasPrefix(lb, "\"") {
+			// a string-valued field (literal text, name): the values are not part of the key
+			return "tree-differs:" + parent + "." + field, path + " " + trunc(la) + "->" + trunc(lb), false
+		}
 		return "tree-differs:" + parent + "." + field + ":" + trunc(la) + "->" + trunc(lb), path, false
 	}
 	if len(a.Kids) != len(b.Kids) {
